@@ -5,6 +5,7 @@ package composite
 // in-process webhook, and runs single syncs through processNextWorkItem.
 
 import (
+	"encoding/json"
 	"fmt"
 	"sort"
 	"strconv"
@@ -118,6 +119,25 @@ func (w *world) customizeCached(name string) interface{} {
 		u := it.(*unstructured.Unstructured)
 		if u.GetName() == name {
 			if v, ok := w.pc.customize.VerifCachedResponse(u.GetUID(), u.GetGeneration()); ok {
+				return v
+			}
+		}
+	}
+	return nil
+}
+
+// customizeExpected: what the scripted (pure) customize hook answers for the cached parent - the answer a cached entry for
+// its (UID, generation) has to be equivalent to.
+func (w *world) customizeExpected(name string) interface{} {
+	if !w.cfg.Customize {
+		return nil
+	}
+	for _, it := range w.parentIdx.List() {
+		u := it.(*unstructured.Unstructured)
+		if u.GetName() == name {
+			ans := scriptedHook(w.cfg)("customize", map[string]interface{}{"parent": u.UnstructuredContent()})
+			var v interface{}
+			if json.Unmarshal(ans.Body, &v) == nil {
 				return v
 			}
 		}
